@@ -140,3 +140,71 @@ Proof.
   cbn [run_events step] in E2. rewrite Hm in E2. unfold raise_in_run in E2. rewrite Hcfg in E2. cbn in E2.
   inversion E2; subst. rewrite concat_app. cbn [concat]. rewrite !app_nil_r. split; [exact Ho|reflexivity].
 Qed.
+
+(* ---- what is handed over is one TLV of the announced Type: the outer check of the decoders passes --------- *)
+Lemma tl_dec_len w v sz : tl_dec w = Ok (v, sz) -> (sz <= length w)%nat.
+Proof.
+  destruct w as [|b r]; [discriminate|]. cbn [tl_dec length].
+  destruct (b <=? 252); [intros H; inversion H; lia|]. unfold unpack_be.
+  destruct (b =? 253); [|destruct (b =? 254)];
+    (destruct (Nat.eqb (length (firstn _ r)) _) eqn:E; [|discriminate]); cbn [bind]; intros H; inversion H; subst;
+    rewrite firstn_length in E; lia.
+Qed.
+
+(* parse_tl_num only looks at the bytes of the number *)
+Lemma tl_dec_prefix w v sz x : tl_dec w = Ok (v, sz) -> tl_dec (firstn sz w ++ x) = Ok (v, sz).
+Proof.
+  destruct w as [|b r]; [discriminate|]. cbn [tl_dec].
+  destruct (b <=? 252) eqn:E0.
+  { intros H; inversion H; subst. cbn [firstn app tl_dec]. rewrite E0. reflexivity. }
+  unfold unpack_be.
+  assert (X : forall k, Nat.eqb (length (firstn k r)) k = true ->
+                        firstn k (firstn k r ++ x) = firstn k r).
+  { intros k Hk. apply Nat.eqb_eq in Hk. rewrite firstn_app, Hk, Nat.sub_diag. cbn [firstn].
+    rewrite app_nil_r. rewrite firstn_firstn, Nat.min_id. reflexivity. }
+  destruct (b =? 253) eqn:E1; [|destruct (b =? 254) eqn:E2];
+    (destruct (Nat.eqb (length (firstn _ r)) _) eqn:E; [|discriminate]); cbn [bind]; intros H; inversion H; subst;
+    rewrite firstn_cons; cbn [app tl_dec]; rewrite E0, ?E1, ?E2; unfold unpack_be; rewrite (X _ E), E; reflexivity.
+Qed.
+
+Definition consistent (p : N * bytes) : Prop := exists body, parse_and_check_tl (snd p) (fst p) = Ok body.
+
+Lemma first_packet_consistent w p rest : first_packet w = Some (p, rest) -> consistent p.
+Proof.
+  unfold first_packet.
+  destruct (take_varnum w) as [[t a]|] eqn:E1; [|discriminate].
+  destruct (take_varnum (skipn a w)) as [[l b]|] eqn:E2; [|discriminate].
+  destruct (l <=? N.of_nat (length (skipn (a + b) w))) eqn:E3; [|discriminate].
+  intros H; inversion H; subst p rest. clear H.
+  apply take_varnum_some in E1, E2.
+  pose proof (tl_dec_len _ _ _ E1) as L1. pose proof (tl_dec_len _ _ _ E2) as L2. rewrite skipn_length in L2.
+  unfold consistent. cbn [fst snd]. unfold parse_and_check_tl.
+  rewrite !firstn_plus, <- app_assoc.
+  rewrite (tl_dec_prefix _ _ _ _ E1). cbn [bind].
+  replace (skipn a (firstn a w ++ firstn b (skipn a w) ++ firstn (N.to_nat l) (skipn (a + b) w)))
+    with (firstn b (skipn a w) ++ firstn (N.to_nat l) (skipn (a + b) w))
+    by (symmetry; apply skipn_app_exact'; rewrite firstn_length; lia).
+  rewrite (tl_dec_prefix _ _ _ _ E2). cbn [bind].
+  rewrite N.eqb_refl. cbn [negb].
+  rewrite !app_length, !firstn_length, !skipn_length.
+  rewrite skipn_length in E3.
+  replace (negb (N.of_nat (Nat.min a (length w) + (Nat.min b (length w - a) + Nat.min (N.to_nat l) (length w - (a + b))))
+                 =? N.of_nat (a + b) + l)) with false by lia.
+  eexists. reflexivity.
+Qed.
+
+Lemma split_stream_consistent : forall fuel w, Forall consistent (fst (split_stream fuel w)).
+Proof.
+  induction fuel as [|f IH]; intros w; cbn [split_stream]; [constructor|].
+  destruct (first_packet w) as [[p rest]|] eqn:E; [|constructor].
+  specialize (IH rest). destruct (split_stream f rest) as [ps r]. cbn [fst] in *.
+  constructor; [eapply first_packet_consistent; exact E|exact IH].
+Qed.
+
+(* every (typ, buf) the callback gets, from any byte stream in any chunking: buf is exactly one TLV element of
+   Type typ, so parse_and_check_tl(buf, typ) succeeds -- over a stream face _receive never sees inconsistent outer framing *)
+Theorem delivered_consistent cfg chunks f' outs :
+  run_events cfg face_init (map Feed chunks) = (f', outs) -> Forall consistent (concat outs).
+Proof.
+  intros H. destruct (framing_any_stream _ _ _ _ H) as (-> & _). apply split_stream_consistent.
+Qed.
